@@ -31,6 +31,10 @@ DET = {
  'C13-3': ('C13', 'argfalff:cell_unchanged on pagerank_centrality (check extended after this seed was first missed: pagerank with a solve stub, asarray aliasing modelled)'),
  'C14-3': ('C14', 'same_result_for_renamed_labels on participation_coef'), 'C15-3': ('C15', 'coreness_is_largest_k_whose_core_contains_node on kcoreness_centrality_bu/n3'),
  'C17-3': ('C17', 'keeps_exactly_offdiag_entries_not_below_thr on threshold_absolute'), 'C20-3': ('C20', 'empty_diagonal on makeevenCIJ/n4/sz1'),
+ 'C05-3': ('C05', 'global_stream_untouched_when_seeded on makerandCIJdegreesfixed (found symbolically at once; the real-code replay first used the single seed 7 and did not reproduce -> replay now runs the scripted path and searches 17 integer seeds)'),
+ 'C09-3': ('C09', 'zero_when_fewer_than_two_neighbours on clustering_coef_wd/n3'), 'C11-3': ('C11', 'lattice_cost_not_increased on latmio_und with symbolic weights'),
+ 'C16-3': ('C16', 'agrees_with_reachdist_distance (check extended after this seed was first missed: the distance matrix of reachdist is now compared, not only its reach flags)'),
+ 'C19-3': ('C19', 'null_is_largest_component_under_relabelling on the 2+3 stack'),
  'C20-1': ('C20', 'in/out_degree on makerandCIJdegreesfixed/211/121'), 'C20-2': ('C20', 'nearer_band_full_before_farther_used on makeringlatticeCIJ n=5'),
 }
 for d in sorted(glob.glob(os.path.join(V, 'seeded', '*'))):
